@@ -3,6 +3,7 @@ package det
 import (
 	"fmt"
 	"strconv"
+	"strings"
 
 	"go.yaml.in/yaml/v3"
 
@@ -143,6 +144,7 @@ func GenConfig(r *Rng, o CfgOpts) *CfgMeta {
 			oo.Limits, oo.Guaranteed, oo.MaxApps = 0, 0, 0
 		}
 		m := genConfigOnce(r, oo, users, groups)
+		milliVcore(m.Conf)
 		b, err := yaml.Marshal(m.Conf)
 		if err != nil {
 			continue
@@ -327,4 +329,34 @@ func genConfigOnce(r *Rng, o CfgOpts, users, groups []string) *CfgMeta {
 	}
 	m.Conf = &configs.SchedulerConfig{Partitions: []configs.PartitionConfig{part}}
 	return m
+}
+
+
+// milliVcore rewrites every vcore quantity of the configuration as milli cores ("4" -> "4m"): the SI messages of the
+// harness use small raw numbers, an unsuffixed vcore value in the configuration would be a thousand times larger and
+// no vcore limit would ever bind.
+func milliVcore(conf *configs.SchedulerConfig) {
+	fix := func(m map[string]string) {
+		if v, ok := m["vcore"]; ok && !strings.HasSuffix(v, "m") {
+			m["vcore"] = v + "m"
+		}
+	}
+	var walk func(q *configs.QueueConfig)
+	walk = func(q *configs.QueueConfig) {
+		fix(q.Resources.Max)
+		fix(q.Resources.Guaranteed)
+		fix(q.ChildTemplate.Resources.Max)
+		fix(q.ChildTemplate.Resources.Guaranteed)
+		for i := range q.Limits {
+			fix(q.Limits[i].MaxResources)
+		}
+		for i := range q.Queues {
+			walk(&q.Queues[i])
+		}
+	}
+	for pi := range conf.Partitions {
+		for qi := range conf.Partitions[pi].Queues {
+			walk(&conf.Partitions[pi].Queues[qi])
+		}
+	}
 }
